@@ -843,11 +843,12 @@ package websocket
 //@ requires hpd.proxyURL != nil
 //@ bind fc,ferr after call:forwardDial#1
 //@ bind hp,hnp after call:hostPortNoPort#1
-//@ bind pw,pwset after call:Password#1
+//@ let user := hpd.proxyURL.User
+//@ let pwset := extres("(*net/url.Userinfo).Password", 1, hpd.proxyURL.User)
 //@ assert at call:forwardDial#1[C18.firsthop]: arg2 == network && arg3 == hp
-//@ assert at call:Set#1[C18.auth]: pwset && streq(arg1, "Proxy-Authorization")
-//@ assert at call:Write#1[C18.connect]: arg1 == fc && streq(connectReq.Method, "CONNECT") && connectReq.Host == addr && connectReq.URL.Opaque == addr && connectReq.Header == connectHeader
-//@ assert at call:Write#1[C18.noauth]: imp(hpd.proxyURL.User == nil || !pwset, !haskey(connectHeader, "Proxy-Authorization"))
+//@ assert at call:Write#1[C18.connect]: arg1 == fc && streq(arg0.Method, "CONNECT") && arg0.Host == addr && arg0.URL.Opaque == addr
+//@ assert at call:Write#1[C18.auth]: imp(user != nil && pwset, haskey(arg0.Header, "Proxy-Authorization"))
+//@ assert at call:Write#1[C18.noauth]: imp(user == nil || !pwset, !haskey(arg0.Header, "Proxy-Authorization"))
 //@ assert at return#1[C16.dialerr]: conn == nil && err != nil
 //@ assert at return#2[C16.cleanup]: conn == nil && err != nil && fc.g_closed
 //@ assert at return#3[C16.cleanup]: conn == nil && err != nil && fc.g_closed
